@@ -14,7 +14,7 @@ from ..coqrun import cstr, cZ, cnat, cbool, clist, cpair, copt
 from ..tok import S
 
 PID = "C15"
-COQ_HEADER = ("From stdpp Require Import gmap strings.\nFrom SK Require Import lib.Tok model.C15_Model.\n"
+COQ_HEADER = ("From stdpp Require Import gmap strings.\nFrom SK Require Import lib.Tok model.C15_Model model.C15_Ext.\n"
               "Local Open Scope string_scope.\n")
 SHARD = 150
 RULE = ("operation histories over k networks (add generated/explicit id, remove reaction, remove species +/- prune, "
@@ -84,6 +84,9 @@ def _apply(nets, op):
 
 
 def impl(case):
+    if case.get("kind", "").startswith("h2"):
+        from ..gen import c15_ext
+        return c15_ext.impl2(case)
     from synkit.CRN.Hypergraph.hypergraph import CRNHyperGraph
     nets = [CRNHyperGraph() for _ in range(case["n"])]
     out = []
@@ -121,6 +124,9 @@ def _op(op):
 
 
 def coq_case(case):
+    if case.get("kind", "").startswith("h2"):
+        from ..gen import c15_ext
+        return c15_ext.coq_case2(case)
     return "run %s %s" % (cnat(case["n"]), clist([_op(o) for o in case["ops"]]))
 
 
@@ -175,6 +181,9 @@ def _check_net(H, spec, kept, where):
 
 
 def oracle(case):
+    if case.get("kind", "").startswith("h2"):
+        from ..gen import c15_ext
+        return c15_ext.oracle2(case)
     import copy
     from synkit.CRN.Hypergraph.hypergraph import CRNHyperGraph
     n = case["n"]
@@ -285,7 +294,8 @@ def distribution(cases, obss):
     for c, obs in zip(cases, obss):
         lens[len(c["ops"])] = lens.get(len(c["ops"]), 0) + 1
         for o in c["ops"]:
-            kinds[o[0]] = kinds.get(o[0], 0) + 1
+            kk = o[0] if o[0] != "q" else "q:" + o[2]
+            kinds[kk] = kinds.get(kk, 0) + 1
         for o in obs:
             if isinstance(o, list) and o and isinstance(o[0], int):
                 errs[o[0]] = errs.get(o[0], 0) + 1
@@ -382,6 +392,8 @@ def gen_cases(tier, rng):
         nrand, maxlen = 6000, 60
     for k in range(nrand):
         cases.append(dict(kind="random", n=3, ops=_rand_hist(rng, maxlen, rng.choice([3, 4, 7]), 3)))
+    from ..gen import c15_ext
+    cases += c15_ext.gen_cases2(tier, rng)
     return cases
 
 LEVEL_TEXT = ("Machine-checked proof (Coq) over an executable model of CRNHyperGraph: the store invariant (indices exact, species = occurring "
